@@ -167,6 +167,9 @@ def dispatcher_scenario(node, shape, cex):
         root = {"k": "Reference", "n": C.string(z3.String("ref.name"))}
         sc["facts"] = C.value(z3.Const("facts", VAL))
         nleaf = 0
+        rn = z3.String("ref.name")
+        if C.boolean(e3.sym_has(rn)):          # a symbol of the same name exists in the model: it must not influence a reference
+            builder.append({"op": "symbol", "name": C.string(rn), "value": C.value(e3.sym_at(rn))})
     elif node == "Symbol":
         name = z3.String("sym.name")
         root = {"k": "Symbol", "n": C.string(name)}
